@@ -399,8 +399,9 @@ func c14Eval(f []string) (string, []string) {
 func c14Gen(g *hx.Gen) {
 	r := g.Rng
 	emit := func(nHosts, mc, mf, expiry int, unh string, nThreads int, evs [][2]int) {
-		// drain: let every request run to its end (answering ok)
-		for round := 0; round < 6; round++ {
+		// drain: let every request run to its end (answering ok). With a cap, a request may lose its slot and
+		// select again while another one is being forwarded, so allow four rounds per request.
+		for round := 0; round < 4*nThreads+4; round++ {
 			for t := 0; t < nThreads; t++ {
 				evs = append(evs, [2]int{t, 0})
 			}
@@ -477,7 +478,7 @@ func c14Gen(g *hx.Gen) {
 		parts = append(parts, "w")
 		parts = append(parts, fmt.Sprintf("%d:%d", nThreads-1, 5*r.Intn(2)))
 		parts = append(parts, "w", "w")
-		for round := 0; round < 4; round++ {
+		for round := 0; round < 4*nThreads+4; round++ {
 			for t := 0; t < nThreads; t++ {
 				parts = append(parts, fmt.Sprintf("%d:0", t))
 			}
